@@ -298,7 +298,7 @@ func c46Check(tb ev.TB, rec *ev.Rec, c *c46Case) {
 		}
 		if !rec.Fail(tb, keyClass+"."+kind, c, "%s (%s, expectation %s): %s; head=%q",
 			keyClass, c.Gen, c46ModeName[v.Mode], msg, string(c.stream[:min(len(c.stream), 60)])) {
-			rec.Excluded("known-finding:" + keyClass + "/" + kind)
+			rec.Excluded("known-finding:" + keyClass + "." + kind)
 		}
 	}
 }
